@@ -357,6 +357,11 @@ func oracleRegistrySequential(prop string, mr *muxRun, res *RunResult) *Violatio
 		}
 	}
 	res.Extra["model_states_x_last_op"] += len(states)
+	// the final snapshot routes exactly what a fresh registration of the live
+	// set routes
+	if v := oracleReference(prop, mr, historyString(g.ops), cnt); v != nil {
+		return v
+	}
 	return nil
 }
 
